@@ -362,6 +362,35 @@ async def after_error(net, hyg, plan):
                 # the data connection of the abandoned listing is the client's to clean up: a fresh client object is not needed
             elif what == "remove-refused":
                 await c.remove("/vault")
+            elif what == "download-onto-directory":
+                # the local side of a download cannot be opened (a directory sits where the file should go): an ordinary
+                # exception, and the client goes on as if nothing had been asked
+                await c.path_io.mkdir(pathlib.PurePosixPath("/dl/o.txt"), parents=True)
+                await c.download("/other/o.txt", "/dl/o.txt", write_into=True)
+            elif what == "remove-with-fault":
+                # the storage fails once, at the first thing remove() asks the server: that is an error, not "nothing there"
+                state_ = {"n": 0}
+
+                def fail_once(op, path, n, sess):
+                    state_["n"] += 1
+                    return OSError(5, "injected EIO") if state_["n"] == 1 else None
+                w.ctl.fail = fail_once
+                try:
+                    await c.remove("/scratch")
+                finally:
+                    w.ctl.fail = None
+                if "/scratch/s1" in w.tree():
+                    viol.append({"key": "remove-returned-with-the-tree-intact", "msg": f"plan {plan}: the first storage call behind remove('/scratch') "
+                                                                                       f"failed (451), remove() returned normally, nothing was removed"})
+            elif what == "remove-slow-storage":
+                # every stat of the storage takes 5 ms (a network file system): listings are still being written while the
+                # client already reads them
+                w.ctl.delay = lambda op, path, n: 0.005 if op == "stat" else 0
+                try:
+                    await c.remove("/first")
+                finally:
+                    w.ctl.delay = None
+                want.pop("/first")
             elif what == "upload-twice":
                 local = pathlib.PurePosixPath("/src")
                 await c.path_io.mkdir(local / "in" / "deeper", parents=True)
@@ -372,8 +401,13 @@ async def after_error(net, hyg, plan):
                 for k_, v_ in (("/first/incoming", DIR), ("/first/incoming/v1", DIR), ("/first/incoming/v1/in", DIR),
                                ("/first/incoming/v1/in/deeper", DIR), ("/first/incoming/v1/in/deeper/f.txt", b"payload")):
                     want[k_] = v_
-        except (aioftp.StatusCodeError, ConnectionError) as e:
+        except (aioftp.StatusCodeError, ConnectionError, aioftp.PathIOError) as e:
             first_error = e
+        if what == "remove-slow-storage" and first_error is not None:
+            viol.append({"key": "remove-fails-on-slow-storage", "msg": f"plan {plan}: remove('/first') -> {first_error!r}"[:300]})
+            want = dict(w.tree())
+        if what == "download-onto-directory" and first_error is None:
+            viol.append({"key": "download-onto-directory-succeeded", "msg": f"plan {plan}"})
         if what == "remove-refused":
             if first_error is None:
                 viol.append({"key": "remove-of-protected-tree-succeeded", "msg": f"plan {plan}"})
@@ -705,7 +739,7 @@ def gen_cases(tier, seed):
             for cwd in (None, "/w"):
                 plans.append({"seed": seed, "op": "client_reuse", "destination": dest, "write_into": wi, "fallback": fb, "cwd": cwd, "tree": {},
                               "src_is_file": False, "src_name": "src"})
-    for what in ("list-refused", "list-abandoned", "remove-refused", "upload-twice"):
+    for what in ("list-refused", "list-abandoned", "remove-refused", "upload-twice", "download-onto-directory", "remove-with-fault", "remove-slow-storage"):
         for fb in (False, True):
             plans.append({"seed": seed, "op": "after_error", "what": what, "fallback": fb, "tree": {}, "destination": "", "write_into": False,
                           "cwd": "/", "src_is_file": False})
